@@ -211,7 +211,7 @@ def obligations(ctx):
 
 
 # ---------------------------------------------------------------- generic token-level round trip of struct-level codecs
-MUST_COVER = ['TransactionInput', 'ExUnits', 'UnitInterval', 'ExUnitPrices', 'ProtocolVersion', 'Redeemer', 'ConstrPlutusData', 'Vkeywitness', 'BootstrapWitness', 'Anchor', 'GovernanceActionId', 'VotingProcedure', 'PoolMetadata', 'Update', 'TransactionUnspentOutput', 'StakeDelegation', 'PoolRegistration', 'PoolRetirement', 'GenesisKeyDelegation', 'MoveInstantaneousRewardsCert', 'CommitteeHotAuth', 'CommitteeColdResign', 'DRepRegistration', 'DRepDeregistration', 'DRepUpdate', 'StakeAndVoteDelegation', 'StakeRegistrationAndDelegation', 'StakeVoteRegistrationAndDelegation', 'VoteDelegation', 'VoteRegistrationAndDelegation', 'VotingProposal', 'ParameterChangeAction', 'HardForkInitiationAction', 'TreasuryWithdrawalsAction', 'NoConfidenceAction', 'NewConstitutionAction', 'InfoAction', 'Constitution', 'Transaction', 'SingleHostAddr', 'SingleHostName', 'MultiHostName', 'PoolParams', 'DataOption', 'ScriptRef', 'Header', 'OperationalCert', 'TimelockStart', 'TimelockExpiry', 'ScriptPubkey', 'ScriptAll', 'ScriptAny', 'ScriptNOfK', 'DRepVotingThresholds', 'PoolVotingThresholds', 'ProtocolParamUpdate', 'AuxiliaryData', 'GeneralTransactionMetadata', 'MetadataList', 'MetadataMap', 'PlutusScripts', 'Withdrawals', 'Mint', 'MintAssets', 'MultiAsset', 'Assets', 'Redeemers', 'Relays', 'Ed25519KeyHashes', 'TransactionInputs', 'Certificates', 'TransactionOutputs', 'VotingProcedures', 'VotingProposals', 'Committee', 'TreasuryWithdrawals', 'ProposedProtocolParameterUpdates', 'PlutusList', 'AuxiliaryDataSet', 'TransactionBodies', 'TransactionWitnessSets', 'Credentials', 'RewardAddresses', 'MIRToStakeCredentials', 'Block', 'Costmdls', 'Languages', 'AssetNames', 'ScriptHashes', 'Vkeys', 'GenesisHashes', 'Ipv4', 'Ipv6', 'URL', 'DNSRecordAorAAAA', 'DNSRecordSRV', 'CostModel', 'Strings', 'TransactionMetadatumLabels']
+MUST_COVER = ['TransactionInput', 'ExUnits', 'UnitInterval', 'ExUnitPrices', 'ProtocolVersion', 'Redeemer', 'ConstrPlutusData', 'Vkeywitness', 'BootstrapWitness', 'Anchor', 'GovernanceActionId', 'VotingProcedure', 'PoolMetadata', 'Update', 'TransactionUnspentOutput', 'StakeDelegation', 'PoolRegistration', 'PoolRetirement', 'GenesisKeyDelegation', 'MoveInstantaneousRewardsCert', 'CommitteeHotAuth', 'CommitteeColdResign', 'DRepRegistration', 'DRepDeregistration', 'DRepUpdate', 'StakeAndVoteDelegation', 'StakeRegistrationAndDelegation', 'StakeVoteRegistrationAndDelegation', 'VoteDelegation', 'VoteRegistrationAndDelegation', 'VotingProposal', 'ParameterChangeAction', 'HardForkInitiationAction', 'TreasuryWithdrawalsAction', 'NoConfidenceAction', 'NewConstitutionAction', 'InfoAction', 'Constitution', 'Transaction', 'SingleHostAddr', 'SingleHostName', 'MultiHostName', 'PoolParams', 'DataOption', 'ScriptRef', 'Header', 'OperationalCert', 'TimelockStart', 'TimelockExpiry', 'ScriptPubkey', 'ScriptAll', 'ScriptAny', 'ScriptNOfK', 'DRepVotingThresholds', 'PoolVotingThresholds', 'ProtocolParamUpdate', 'AuxiliaryData', 'GeneralTransactionMetadata', 'MetadataList', 'MetadataMap', 'PlutusScripts', 'Withdrawals', 'Mint', 'MintAssets', 'MultiAsset', 'Assets', 'Redeemers', 'Relays', 'Ed25519KeyHashes', 'TransactionInputs', 'Certificates', 'TransactionOutputs', 'VotingProcedures', 'VotingProposals', 'Committee', 'TreasuryWithdrawals', 'ProposedProtocolParameterUpdates', 'PlutusList', 'AuxiliaryDataSet', 'TransactionBodies', 'TransactionWitnessSets', 'Credentials', 'RewardAddresses', 'MIRToStakeCredentials', 'Block', 'Costmdls', 'Languages', 'AssetNames', 'ScriptHashes', 'Vkeys', 'GenesisHashes', 'CostModel', 'TransactionMetadatumLabels']
 
 SET_TYPES = ("Ed25519KeyHashes", "Credentials", "TransactionInputs", "Certificates", "VotingProposals", "Vkeywitnesses", "BootstrapWitnesses")
 
